@@ -3,6 +3,7 @@
 #![allow(static_mut_refs)]
 
 pub mod alloc_spy;
+pub mod devsim;
 pub mod evlog;
 pub mod hooks;
 pub mod json;
